@@ -686,7 +686,7 @@ def correspondence(run):
     nuser = 60 if run.thorough else 24
     per = 8 if run.thorough else 6
     for c in load_corpus():
-        if "x" in c:
+        if "x" in c and "check" not in c:
             groups.append((lut_from_case(c["lut"]), False, [(c, ["corpus"])]))
     for _ in range(nuser):
         L = gen_user_lut(rng, dyadic=True)
@@ -845,7 +845,8 @@ def chk_reference(sc, rng):
         i = bad[0]
         return ("event %d (x=%r, deform=%r): get_emodulus=%r, scaled linear "
                 "interpolation of the LUT=%r (hull distance %.3g)" % (
-                    i, sc.x[i], sc.d[i], float(E[i]), float(R[i]), dist[i]))
+                    i, float(sc.x[i]), float(sc.d[i]), float(E[i]), float(R[i]),
+                    dist[i]))
     E = np.atleast_1d(E)
     for i in range(E.size):
         if np.isnan(dist[i]):
@@ -854,11 +855,12 @@ def chk_reference(sc, rng):
         elif dist[i] > BAND and np.isnan(E[i]):
             return ("event %d (x=%r, deform=%r) lies inside the support "
                     "(distance %.3g to the hull) but emodulus is NaN" % (
-                        i, sc.x[i], sc.d[i], dist[i]))
+                        i, float(sc.x[i]), float(sc.d[i]), dist[i]))
         elif dist[i] < -BAND and not np.isnan(E[i]):
             return ("event %d (x=%r, deform=%r) lies outside the support "
                     "(distance %.3g) but emodulus=%r" % (
-                        i, sc.x[i], sc.d[i], -dist[i], E[i]))
+                        i, float(sc.x[i]), float(sc.d[i]), -dist[i],
+                        float(E[i])))
     return None
 
 
@@ -882,8 +884,8 @@ def chk_batch(sc, rng):
         if r:
             return ("event %d of the batch (x=%r, deform=%r) has emodulus %r "
                     "in the full batch but %r in the sub-batch with indices "
-                    "%s" % (idx[r[0]], sc.x[idx[r[0]]], sc.d[idx[r[0]]],
-                            r[1], r[2], idx[:20]))
+                    "%s" % (idx[r[0]], float(sc.x[idx[r[0]]]),
+                            float(sc.d[idx[r[0]]]), r[1], r[2], idx[:20]))
     # split in two halves
     h = n // 2
     a = np.atleast_1d(sc.f(x=sc.x[:h], d=sc.d[:h],
@@ -931,7 +933,7 @@ def chk_scalar_vs_array(sc, rng):
         if r:
             return ("event %d (x=%r, deform=%r): temperature %r as scalar "
                     "gives %r, as array of length %d gives %r" % (
-                        r[0], sc.x[r[0]], sc.d[r[0]], t, r[1],
+                        r[0], float(sc.x[r[0]]), float(sc.d[r[0]]), t, r[1],
                         len(m1["temp"]), r[2]))
     return None
 
@@ -961,7 +963,7 @@ def chk_proportional(sc, rng):
             if r:
                 return ("event %d: per-event viscosity %r: emodulus %r, "
                         "expected %r (global viscosity %r gives %r)" % (
-                            r[0], vs[r[0]], r[2], r[1], v, E0[r[0]]))
+                            r[0], float(vs[r[0]]), r[2], r[1], v, float(E0[r[0]])))
     return None
 
 
@@ -977,7 +979,8 @@ def chk_rescale(sc, rng):
         return ("event %d (x=%r, deform=%r): emodulus %r, after rescaling "
                 "the set-up by %r (width, pixel size x lam; %s x lam^%d; "
                 "flow rate x lam^3) %r" % (
-                    r[0], sc.x[r[0]], sc.d[r[0]], r[1], lam, sc.L.feat,
+                    r[0], float(sc.x[r[0]]), float(sc.d[r[0]]), r[1], lam,
+                    sc.L.feat,
                     sc.L.pw, r[2]))
     return None
 
@@ -999,7 +1002,7 @@ def chk_px0(sc, rng):
     if r:
         return ("event %d (x=%r, deform=%r): px_um=%r gives %r; px_um=0 with "
                 "the documented offset subtracted gives %r" % (
-                    r[0], sc.x[r[0]], sc.d[r[0]], sc.px, r[1], r[2]))
+                    r[0], float(sc.x[r[0]]), float(sc.d[r[0]]), sc.px, r[1], r[2]))
     return None
 
 
